@@ -169,6 +169,24 @@ def gen_boundary_element(r, sizes, which):
     cuts = sorted(set([0, n] + [min(n, (around(r, b) // unit) * unit) for b in bufs[:1]]))
     for a, b2 in zip(cuts, cuts[1:]):
         ops.append("W %d %s" % (b2 - a, " ".join(map(str, data[a:b2]))))
+        between_writes(r, ops, b2)
+    # rewrite the long element in full from its start (the stored form is overwritten across every internal buffer
+    # boundary): on the writing id after a seek to 0, or on a new write access after Hendaccess
+    rw = r.random()
+    if rw < 0.6:
+        n2 = n + r.choice([0, 0, unit, 37 * unit])
+        d2 = [r.randrange(256) for _ in range(n2)]
+        if rw < 0.3:
+            ops.append(seek_op(r, 0, n, n))
+        else:
+            ops += ["E", "OW"]
+        if coder in (0, 2) and r.random() < 0.5:
+            c2 = sorted(set([0, n2] + [min(n2, (around(r, bufs[0]) // unit) * unit)]))
+        else:
+            c2 = [0, n2]
+        for a, b2 in zip(c2, c2[1:]):
+            ops.append("W %d %s" % (b2 - a, " ".join(map(str, d2[a:b2]))))
+        n = n2
 
     def aimed(ops, pos):
         targets = []
@@ -277,6 +295,45 @@ def gen_bit_block_case(r, sizes):
     return "BI %d %s %d %s" % (L, " ".join(map(str, data)), len(ops), " ".join(ops))
 
 
+def gen_bit_rewrite_case(r, sizes, tier="quick"):
+    """a bit element longer than one 4096-byte buffer that already exists (stored with Hputelement) is opened with
+    Hstartbitwrite and overwritten with wide and narrow fields across its block boundaries (after a bit seek to
+    shortly before a boundary; in the thorough tier also from the very start); then it is read back"""
+    B = sizes["BITBUF_SIZE"]
+    k = r.choice([1, 2])
+    L = k * B + r.choice([1, 100, 700, B - 1])
+    data = [r.randrange(256) for _ in range(L)]
+    total = 8 * L
+    ops = ["ow"]
+    wide = r.choice([[32], [32, 17, 9], [24, 32, 13], [8, 32], [32, 31, 16, 1]])
+    touched = []
+    starts = [8 * (blk * B) - r.choice([8, 16, 24, 40, 48, 13, 29]) for blk in range(1, k + 1)]
+    if tier != "quick" and r.random() < 0.3:
+        starts = [0]
+    for p in starts:
+        if p > 0:
+            ops.append("s %d %d" % (p // 8, p % 8))
+        stop = min(total, (p if p > 0 else 0) + (8 * (B + 60) if p == 0 else 8 * r.choice([12, 20, 40])))
+        pos = p
+        while pos < stop:
+            c = min(r.choice(wide), stop - pos)
+            ops.append("w %d %d" % (c, r.getrandbits(c)))
+            pos += c
+        touched.append((p, pos))
+    ops += ["e 0", "x", "or"]
+    for (p, q) in touched:
+        a = max(0, p - 24)
+        ops.append("s %d %d" % (a // 8, a % 8))
+        while a < min(total, q + 24):
+            c = min(total - a, r.choice([32, 17, 8, 5]))
+            ops.append("r %d" % c)
+            a += c
+    ops.append("s 0 0")
+    ops.append("r 32")
+    ops.append("e 0")
+    return "BI %d %s %d %s" % (L, " ".join(map(str, data)), len(ops), " ".join(ops))
+
+
 def gen_bit_long_write_case(r, sizes, tier="quick"):
     """bit element WRITTEN across block boundaries, then read back with seeks across them"""
     B = sizes["BITBUF_SIZE"]
@@ -341,6 +398,18 @@ def read_phase(r, ops, n, unit, pos=0):
     return pos
 
 
+def between_writes(r, ops, written):
+    """between two sequential Hwrite calls: seeks that do not move the position (to the bytes written so far from the
+    start, 0 from the current position, 0 from the end) and Htell / Hinquire probes"""
+    c = r.random()
+    if c < 0.25:
+        ops.append(r.choice(["S %d" % written, "SC 0", "SE 0"]))
+        if r.random() < 0.3:
+            ops.append(r.choice(["S %d" % written, "SC 0", "SE 0"]))
+    elif c < 0.35:
+        ops.append(r.choice(["T", "Q"]))
+
+
 def gen_element_case(r, tier):
     coder, p, unit = gen_coder(r)
     n = pick_size(r, tier)
@@ -353,6 +422,7 @@ def gen_element_case(r, tier):
     for k in parts:
         ops.append("W %d %s" % (k, " ".join(map(str, data[i:i + k]))))
         i += k
+        between_writes(r, ops, i)
     final = n
     c = r.random()
     if c < 0.3:
@@ -368,6 +438,8 @@ def gen_element_case(r, tier):
         for k in parts2:
             ops.append("W %d %s" % (k, " ".join(map(str, d2[i:i + k]))))
             i += k
+            if i >= n:
+                between_writes(r, ops, i)
         final = n2
     elif c < 0.38:
         # append more after reading back on the same id
@@ -663,8 +735,10 @@ def signature(line):
             i += 2 + k
         elif t in ("S", "SC", "SE"):
             a = int(l[i + 1])
-            pos = a if t == "S" else (pos + a if t == "SC" else length + a)
-            flag = True
+            npos = a if t == "S" else (pos + a if t == "SC" else length + a)
+            if npos != pos:
+                flag = True          # a seek to the current position is part of a plain sequential write
+            pos = npos
             i += 2
         elif t == "R":
             k = int(l[i + 1])
@@ -713,6 +787,7 @@ def run(ctx):
         lines += [gen_boundary_element(r, sizes, w) for w in ("none", "rle", "skp", "defl", "defl", "nbit", "nbit")]
         lines += [gen_bit_block_case(r, sizes) for _ in range(6)]
         lines += [gen_bit_long_write_case(r, sizes, ctx.tier) for _ in range(1 if ctx.tier == "quick" else 2)]
+        lines += [gen_bit_rewrite_case(r, sizes, ctx.tier) for _ in range(3)]
     # the harness stops at a sanitizer report; restart it behind the crashing case so every case is explored
     R, S, rcs, start, mball = [], [], [], 0, {}
     while start < len(lines):
